@@ -21,7 +21,7 @@ PROPS = {
             _c02("TestC17", "c17", (2, 12), (2, 600)),
             _c02("TestC14", "c14", (2, 10), (2, 500)),
             _c02("TestC20Loop", "c20", (2, 3), (3, 120)),
-            _c02("TestC18", "c18", (2, 6), (3, 300)),
+            _c02("TestC18", "c18", (2, 12), (3, 300)),
             _c02("TestC02Params", "props", (3, 25), (4, 2500)),
             _c02("TestC02Slash", "props", (3, 25), (4, 2500)),
             dict(_c02("TestC02Adversarial", "c02adv", (6, 40), (8, 1500)), crash_is_violation=True),
